@@ -43,9 +43,6 @@ class Shape:
             return "TyAny"
         return "TyOptional" if self.ty.startswith("Optional[") else "TyPlain"
 
-    @property
-    def wide(self) -> bool:      # a union of >= 3 members with None: admits None, not field-nullable (known finding)
-        return self.fty_term == "TyUnionNone"
 
 
 SHAPES = [
@@ -88,10 +85,10 @@ SHAPES = [
           ("date(2020, 1, 1)", "date(1999, 9, 9)"), "(TyAnnotated TyPlain)"),
     Shape("ann_any", "Annotated[Any, 'meta']", True, True, (("no", None), ("val", "None")), ("None", "'q'", "1"),
           "(TyAnnotated TyAny)"),
-    # a union of three members one of which is None: the type admits None, is_optional() does not see it
-    Shape("wide_union", "Union[int, str, None]", False, True, (("no", None), ("val", "5"), ("val", "None")),
+    # a union of three members one of which is None: nullable like Optional (is_union and NoneType in get_args)
+    Shape("wide_union", "Union[int, str, None]", True, True, (("no", None), ("val", "5"), ("val", "None")),
           ("None", "5", "'s'"), "TyUnionNone"),
-    Shape("wide_union_date", "Union[int, date, None]", False, False, (("no", None), ("val", "5")),
+    Shape("wide_union_date", "Union[int, date, None]", True, False, (("no", None), ("val", "5")),
           ("None", "5", "date(2020, 1, 1)"), "TyUnionNone"),
     Shape("optfloat", "Optional[float]", True, True, (("val", "float('nan')"), ("val", "None")),
           ("None", "float('nan')", "1.0")),
@@ -118,7 +115,7 @@ class FieldSpec:
 
     @property
     def admits_none(self) -> bool:   # a conforming instance may hold None
-        return self.nullable or self.sh.wide
+        return self.nullable
 
 
 @dataclass(frozen=True)
@@ -133,6 +130,9 @@ class Opts:
     fdl: bool = False
     fcx: bool = False
     lazy: bool = False
+    cfg_style: int = 0             # 0: class Config(BaseConfig); 1: plain class Config; >= 2: plain Config deriving from a
+                                   # plain parent class that holds the lines selected by the bits (and contradicting values
+                                   # for overridden options)
     kon: bool | None = None
     kba: bool | None = None
     kcx: bool = False
@@ -228,8 +228,21 @@ def class_source(name: str, fields: list, o: Opts | None, extra_lines: list[str]
     src += ("\n".join(lines) if lines else "    pass") + "\n"
     if o is not None:
         cfg = config_lines(o, cfgd_name if o.cfgd is not None else None)
-        if cfg:
+        if cfg and o.cfg_style == 0:
             src += "    class Config(BaseConfig):\n" + "\n".join(cfg) + "\n"
+        elif cfg and o.cfg_style == 1:
+            src += "    class Config:\n" + "\n".join(cfg) + "\n"
+        elif cfg:
+            # inherited plain Config: what the Config class itself defines wins over its parent, the parent over BaseConfig
+            parent, child = [], []
+            for i, ln in enumerate(cfg):
+                (parent if (o.cfg_style >> (i + 1)) & 1 else child).append(ln)
+            for i, ln in enumerate(child):
+                key, _, val = ln.strip().partition(" = ")
+                if key in OPTN and (o.cfg_style >> (i + 8)) & 1:
+                    parent.append(f"        {key} = {not eval(val)}")        # overridden by the child
+            psrc = f"class {name}Opts:\n" + ("\n".join(x[4:] for x in parent) if parent else "    pass") + "\n"
+            src = psrc + src + f"    class Config({name}Opts):\n" + ("\n".join(child) if child else "        pass") + "\n"
     return src
 
 
@@ -352,8 +365,7 @@ def equals_default(raw, d) -> bool:
     return bool(raw == d)
 
 
-def project(e: dict, fields: list[FieldSpec], defaults: dict, inst, plain: dict, sub=None, keep_none=()) -> dict:
-    """keep_none: field names exempt from omit_none (prediction under known finding omit-none-wide-union only)"""
+def project(e: dict, fields: list[FieldSpec], defaults: dict, inst, plain: dict, sub=None) -> dict:
     names = [f.name for f in fields]
     assert list(plain.keys()) == names, (list(plain.keys()), names)
     by = {f.name: f for f in fields}
@@ -365,7 +377,7 @@ def project(e: dict, fields: list[FieldSpec], defaults: dict, inst, plain: dict,
         v = plain[n] if sub is None or n not in sub else sub[n]
         if f.omit:
             continue
-        if e["on"] and plain[n] is None and n not in keep_none:
+        if e["on"] and plain[n] is None:
             continue
         if e["od"] and n in defaults and equals_default(getattr(inst, n), defaults[n]):
             continue
@@ -414,18 +426,23 @@ def gen_ns(rng, p_none=0.35):
     return (rng.choice(TRI), rng.choice(TRI), rng.choice(TRI))
 
 
+def gen_cfg_style(rng) -> int:
+    r = rng.random()
+    return 0 if r < 0.6 else (1 if r < 0.72 else rng.randrange(2, 1 << 12))
+
+
 def gen_opts(rng, entry="to_dict") -> Opts:
     if entry == "codec":
         return Opts(call=None, cfgd=gen_ns(rng), cfg=gen_ns(rng, 0.0), dd=gen_ns(rng, 0.15), sort=rng.random() < 0.4,
                     fon=rng.random() < 0.3, fba=rng.random() < 0.3, fdl=rng.random() < 0.3, fcx=rng.random() < 0.2,
-                    entry="codec")
+                    entry="codec", cfg_style=gen_cfg_style(rng))
     fon, fba, fdl, fcx = (rng.random() < 0.5 for _ in range(4))
     call = gen_ns(rng, 0.3) if fdl else None
     return Opts(call=call, cfgd=gen_ns(rng), cfg=gen_ns(rng, 0.0), dd=None, sort=rng.random() < 0.4,
                 fon=fon, fba=fba, fdl=fdl, fcx=fcx, lazy=rng.random() < 0.25,
                 kon=rng.choice([None, True, False]) if fon else None,
                 kba=rng.choice([None, True, False]) if fba else None,
-                kcx=fcx and rng.random() < 0.5)
+                kcx=fcx and rng.random() < 0.5, cfg_style=gen_cfg_style(rng))
 
 
 def kw_variants(o: Opts, rng, k: int) -> list[Opts]:
@@ -500,14 +517,13 @@ Definition O call cfgd cfg dd srt fon fba fdl fcx kon kba :=
 Definition P n a ty tr d om := {| p_name := n; p_alias := a; p_ty := ty; p_trivial := tr; p_default := d; p_omit := om |}.
 Fixpoint bools_eqb (a b: list bool) : bool :=
   match a, b with [], [] => true | x :: r, y :: t => Bool.eqb x y && bools_eqb r t | _, _ => false end.
-Definition case_ok (c: opts * list fplan * list fval * option (list (string * pv)) * (bool * bool * list bool)) : bool :=
-  match c with (o, fs, vs, expected, (py_d14, py_wide, py_nullable)) =>
+Definition case_ok (c: opts * list fplan * list fval * option (list (string * pv)) * (bool * list bool)) : bool :=
+  match c with (o, fs, vs, expected, (py_d14, py_nullable)) =>
     match to_dict_model o fs vs, expected with
     | Some l, Some e => pairs_eqb (dict_of l) e
     | None, None => true          (* TypeError *)
     | _, _ => false end
-    && Bool.eqb (negb (flag_defaults_ok o)) py_d14 && kw_ok o && vals_sem fs vs
-    && Bool.eqb (negb (vals_ok fs vs)) py_wide
+    && Bool.eqb (negb (flag_defaults_ok o)) py_d14 && kw_ok o && vals_ok fs vs
     && match py_nullable with [] => true | _ => bools_eqb (map nullable fs) py_nullable end end.
 """
 
@@ -546,16 +562,8 @@ def coq_case(o: Opts, fields, defaults, inst, plain: dict, observed, real_nullab
         exp = "None"
     else:
         exp = "(Some " + coq_list(f"({coq_str(k)}, {enc(v)})" for k, v in observed.items()) + ")"
-    wide = wide_none_fields(fields, inst)
-    return (f"({coq_opts(o)}, {fs}, {vs}, {exp}, ({coq_bool(d14_signature(o))}, {coq_bool(bool(wide))}, "
+    return (f"({coq_opts(o)}, {fs}, {vs}, {exp}, ({coq_bool(d14_signature(o))}, "
             f"{coq_list(coq_bool(b) for b in (real_nullable or []))}))")
-
-
-def wide_none_fields(fields, inst) -> set:
-    """signature of known finding omit-none-wide-union: fields whose type is a union of >= 3 members containing
-    None (not recognised by is_field_nullable) and that hold None"""
-    return {f.name for f in fields if isinstance(f, FieldSpec) and f.sh.wide and not f.nullable
-            and getattr(inst, f.name) is None}
 
 
 def real_nullables(ns: dict, cls: str, fields) -> list | None:
@@ -632,14 +640,8 @@ def eval_flat(ns: dict, src: str, fields, o: Opts, vals, want_coq=True) -> Eval:
     if typed(observed) != typed(expected):
         ev.ok = False
         ev.kind = "projection-mismatch"
-        wide = wide_none_fields(fields, inst)
         if d14_signature(o) and typed(observed) == typed(project(effective_d14(o), fields, defaults, inst, plain)):
             ev.kind = "call-dialect-vs-flag-defaults"
-        elif wide and typed(observed) == typed(project(e, fields, defaults, inst, plain, keep_none=wide)):
-            ev.kind = "omit-none-wide-union"
-        elif wide and d14_signature(o) and typed(observed) == typed(
-                project(effective_d14(o), fields, defaults, inst, plain, keep_none=wide)):
-            ev.kind = "omit-none-wide-union"
         ev.what = f"to_dict({kwargs_src(o)}) = {observed!r}, projection of the plain output {plain!r} is {expected!r}"
     return ev
 
@@ -650,7 +652,7 @@ def flat_signature(ev: Eval) -> dict:
 
 def flat_key(fields, o: Opts, vals):
     return (tuple((f.shape, f.dkind, f.dsrc, f.alias is not None, f.omit) for f in fields),
-            (o.call, o.cfgd, o.cfg, o.dd, o.sort, o.fon, o.fba, o.fdl, o.fcx, o.lazy, o.kon, o.kba, o.entry), tuple(vals))
+            (o.call, o.cfgd, o.cfg, o.dd, o.sort, o.fon, o.fba, o.fdl, o.fcx, o.lazy, o.kon, o.kba, o.entry, o.cfg_style), tuple(vals))
 
 
 # ---------------------------------------------------------------------------
@@ -729,7 +731,7 @@ def gen_table(rng, unions: bool = True) -> list[NCls]:
         else:
             fon, fba, fdl, fcx = (rng.random() < 0.5 for _ in range(4))
             o = Opts(cfgd=gen_ns(rng, 0.45), cfg=gen_ns(rng, 0.3) or ("U", "U", "U"), sort=rng.random() < 0.3,
-                     fon=fon, fba=fba, fdl=fdl, fcx=fcx, lazy=mixin and rng.random() < 0.2)
+                     fon=fon, fba=fba, fdl=fdl, fcx=fcx, lazy=mixin and rng.random() < 0.2, cfg_style=gen_cfg_style(rng))
         names = rng.sample(NAMES, rng.randint(1, 4))
         aliases = rng.sample(ALIASES, len(ALIASES))
         fields = []
@@ -1281,7 +1283,8 @@ def run(ctx: vlib.Ctx):
     ctx.coverage["rule"] = (
         "flat: random dataclasses of 1-6 fields over 17 field shapes (nullable by type / by default None, trivial / "
         "non-trivial packer, default value / factory / none, alias incl. colliding keys, serialize=omit) x option vector "
-        "(call dialect, Config.dialect, Config in {unset,F,T}^3 each, default dialect via BasicEncoder, sort_keys, lazy, "
+        "(call dialect, Config.dialect, Config in {unset,F,T}^3 each -- Config written as BaseConfig subclass, plain class, or "
+        "plain class inheriting part of its options from a plain parent --, default dialect via BasicEncoder, sort_keys, lazy, "
         "4 code generation flags, keyword arguments) x values (None / the default / ==-equal of another type / other); "
         "lattice: fixed 6-field family x every (call, Config.dialect, Config) namespace triple (thorough: all 21168, "
         "quick: slice); nested: class tables of 2-5 classes (mixin subclasses, plain dataclasses with a Config, plain "
@@ -1327,7 +1330,7 @@ def run(ctx: vlib.Ctx):
         "hooks, context values, format encoders (to_json ...) and lazy compilation do not change the mapping: exercised "
         "by the oracle (lazy, context flag), not part of the model",
     ]
-    thm = ["C08_project_partial", "C08_project_refuted", "C08_wide_union_refuted", "C08_project_actual",
+    thm = ["C08_project_partial", "C08_project_refuted", "C08_project_actual",
            "C08_spec_sorted", "C08_spec_values"]
     ctx.theorems("props/C08_kernel_K3.vo", ["K3_order", "K3_look"], kernels=["K3"])
     ctx.theorems("props/C08_kernel_K8.vo", ["K8_forward", "K8_use_kwargs"], kernels=["K8"])
@@ -1362,7 +1365,7 @@ def run(ctx: vlib.Ctx):
 
     name = "to_dict-model-vs-generated-code"
     bad, log = vlib.coq_bad_idx("c08_flat", "OptProj", "", COQ_DEFS, cases, "case_ok",
-                                "opts * list fplan * list fval * option (list (string * pv)) * (bool * bool * list bool)", shard=400,
+                                "opts * list fplan * list fval * option (list (string * pv)) * (bool * list bool)", shard=400,
                                 needs=["theories/OptProj.vo"])
     if bad is None:
         ctx.correspondence(name, len(cases), -1, log)
@@ -1370,7 +1373,7 @@ def run(ctx: vlib.Ctx):
     else:
         # a listed finding that no longer reproduces: the faithful model still contains the defect, the
         # implementation now satisfies the property on that case -> model-stale note, not a violation
-        stale = [i for i in bad if info[i].ok and d14_signature(info[i].o)]   # (wide-union cases have .ok False while the finding stands)
+        stale = [i for i in bad if info[i].ok and d14_signature(info[i].o)]
         bad = [i for i in bad if i not in set(stale)]
         if stale:
             ctx.notes.append(f"model-stale: {len(stale)} correspondence cases inside the signatures of listed findings "
